@@ -85,6 +85,10 @@ type ConfigStep struct {
 	Doc     DocIn       `json:"doc"`
 	Lookups [][2]uint64 `json:"lookups"`          // (account id, pubkey id)
 	Source  string      `json:"source,omitempty"` // first step only: "" = static source (file), "http" = dynamic source (POST with the public keys)
+	// Then: what the source answers when it is asked again within this refresh ("" the same | flip: a
+	// failure becomes the last document that decoded, a document becomes a failure | nil: an
+	// error-free answer without a body); the code fetches once per refresh.
+	Then string `json:"then,omitempty"`
 }
 
 // Bare documents: legal JSON values that are not objects, with the white space JSON allows around
@@ -426,17 +430,33 @@ type cfgSource struct {
 	accountsErr bool // the accounts provider fails: the refresh ends before anything is fetched
 	noAccounts  bool // no validating accounts: nothing is fetched
 	fetches     int
+	stepFetches int    // fetches within the current refresh
+	then        string // what later fetches of the refresh get
+	alt         string // a document nobody else serves (base relay 77)
 }
 
 func (c *cfgSource) Fetch(ctx context.Context, _ string) ([]byte, error) {
 	c.fetches++
+	c.stepFetches++
 	if err := ctx.Err(); err != nil {
 		return nil, err
 	}
-	if c.fail {
+	fail, text := c.fail, c.text
+	if c.stepFetches > 1 {
+		switch c.then {
+		case "flip":
+			fail = !fail
+			if !fail {
+				text = c.alt
+			}
+		case "nil":
+			return nil, nil
+		}
+	}
+	if fail {
 		return nil, errors.New("scripted configuration source failure")
 	}
-	return []byte(c.text), nil
+	return []byte(text), nil
 }
 func (c *cfgSource) accounts() (map[phase0.ValidatorIndex]e2wtypes.Account, error) {
 	switch {
@@ -496,6 +516,14 @@ func runConfig(t *testing.T, steps []ConfigStep) result {
 		src.fail = unavailable && st.Doc.Variant%3 == 0
 		src.accountsErr = unavailable && st.Doc.Variant%3 == 1
 		src.noAccounts = unavailable && st.Doc.Variant%3 == 2
+		src.stepFetches, src.then = 0, st.Then
+		if st.Then != "" {
+			res.counts = append(res.counts, "later-fetches:"+st.Then)
+		}
+		if src.fail && st.Then == "flip" {
+			res.counts = append(res.counts, "source-fails-then-serves")
+		}
+		src.alt = docJSON(DocIn{Kind: "v2", V2: &V2In{Relays: []BaseRelayIn{{Addr: 77}}}})
 		var cfg blockrelay.ExecutionConfigurator
 		var err error
 		decPanic, decMsg := false, ""
@@ -808,6 +836,26 @@ func genConfig(r *Rand) []ConfigStep {
 	}
 	if r.Chance(1, 4) {
 		steps[0].Source = "http"
+	}
+	for i := range steps {
+		steps[i].Then = []string{"", "flip", "flip", "nil"}[r.Intn(4)]
+		if d := steps[i].Doc; d.Kind == "unavailable" && d.Variant%3 == 0 && r.Chance(2, 3) {
+			steps[i].Then = "flip" // the source fails, then serves a document: what a second attempt would get
+		}
+	}
+	// family: a refresh whose source fails (and would serve another document if asked again), with a
+	// configuration in force or without
+	if r.Chance(1, 8) {
+		at := r.Intn(len(steps) + 1)
+		lks := [][2]uint64{{1, 1}}
+		if len(steps) > 0 {
+			lks = steps[0].Lookups
+		}
+		fails := ConfigStep{Doc: DocIn{Kind: "unavailable", Variant: 0}, Lookups: lks, Then: "flip"}
+		steps = append(steps[:at], append([]ConfigStep{fails}, steps[at:]...)...)
+		if at == 0 && len(steps) > 1 {
+			steps[0].Source, steps[1].Source = steps[1].Source, ""
+		}
 	}
 	return steps
 }
